@@ -100,6 +100,12 @@ def run(chk):
             for j in range(burst + 3):
                 evs.append("%d@%d" % (p, 0 if p == pa else 5))
         evs.append("%d@%d" % (pa, period * (burst + 2)))
+        if i % 2 == 0 or i % 4 == 1:
+            # a client that honours the hint: refused at 0, it comes back just after one period, three requests at a time,
+            # for four periods (each time one cell has been replenished)
+            evs.pop()
+            for cyc in range(1, 5):
+                evs += ["%d@%d" % (pa, cyc * (period + 3))] * 3
         rl.append("ratelayer %s%s %d %d %s" % (mode, usage, period, burst, " ".join(evs)))
     # many peers: one peer exhausts its quota (period one hour), then 1100-3000 other identities send one request each,
     # then the first peer again: still over its quota, whatever the number of peers the layer has seen in between
@@ -148,6 +154,8 @@ def run(chk):
             chk.monitor_fail("Block mode refused a request", dict(case=c, impl=a))
         if mode == "err" and not refused:
             chk.monitor_fail("ReturnError mode let burst+3 simultaneous requests through", dict(case=c, impl=a))
+        if len(t) > 4 + 2 * (burst + 3) + 1:
+            chk.count("ratelayer-with-hint-honouring-retries")
         # peers independent: peer 2 gets at least its burst although peer 1 exhausted its quota first
         pa, pb = t[4].split("@")[0], t[4 + burst + 3].split("@")[0]
         n2 = len([r for r in oks if r[0] == pb])
